@@ -306,10 +306,11 @@ namespace GeographicLib {
   Math::real Geoid::height(real lat, real lon) const {
     using std::isnan;           // Needed for Centos 7, ubuntu 14
     lat = Math::LatFix(lat);
+    // AngNormalize converts an infinite longitude to NaN
+    lon = Math::AngNormalize(lon);
     if (isnan(lat) || isnan(lon)) {
       return Math::NaN();
     }
-    lon = Math::AngNormalize(lon);
     real
       fx =  lon * _rlonres,
       fy = -lat * _rlatres;
@@ -418,6 +419,10 @@ namespace GeographicLib {
     east = Math::AngNormalize(east);
     if (east <= west)
       east += Math::td;         // east - west in (0, 360]
+    if (!(isfinite(south) && isfinite(north) && isfinite(west) && isfinite(east)))
+      // LatFix and AngNormalize return NaN for latitudes outside [-90, 90]
+      // and for infinite longitudes; these can't be converted to int.
+      throw GeographicErr("Geoid::CacheArea: limits of area are not valid");
     int
       iw = int(floor(west * _rlonres)),
       ie = int(floor(east * _rlonres)),
